@@ -180,6 +180,20 @@ class _Subst(ast.NodeTransformer):
         return n
 
 
+class _Beta(ast.NodeTransformer):
+    """(lambda a, b: E)(x, y)  ->  E[a := x, b := y]   (callables handed to a spliced helper as lambdas)."""
+
+    def visit_Call(self, n: ast.Call):
+        self.generic_visit(n)
+        f = n.func
+        if isinstance(f, ast.Lambda) and not n.keywords and not f.args.vararg and not f.args.kwarg and not f.args.kwonlyargs \
+                and not f.args.defaults and len(f.args.posonlyargs + f.args.args) == len(n.args) \
+                and not any(isinstance(a, ast.Starred) for a in n.args):
+            names = [a.arg for a in f.args.posonlyargs + f.args.args]
+            return _Subst(dict(zip(names, n.args)), {}).visit(copy.deepcopy(f.body))
+        return n
+
+
 def _stored_names(node: ast.AST) -> Set[str]:
     out = set()
     for n in ast.walk(node):
@@ -263,7 +277,7 @@ def splice(caller, callee, call: ast.Call, receiver_is_self: bool, make_assign, 
         if name in used_names:
             rename[name] = '%s__%s' % (name, callee.name.strip('_'))
     tr = _Subst(sub, rename)
-    body = [tr.visit(b) for b in body]
+    body = [_Beta().visit(tr.visit(b)) for b in body]
     new_body, done = _retify(body, make_assign)
     if not done:
         new_body = new_body + make_assign(None) if not _always_raises(new_body) else new_body
